@@ -671,7 +671,14 @@ def slot_rule(run, ctx):
         need(re.search(r"if let Some\(start\) = inner_slots\[[^\]]+\] \{let end = inner_slots\[[^\]]+\]\.unwrap\(\); state\.save\(slot,start\.get\(\)\); state\.save\(\(1 \+ slot\),end\.get\(\)\)\}", c) is not None,
              "copy-shape", "matched inner group: start from the even slot, end from the odd slot, written to (slot, slot+1)")
         need("state.save(slot,start.get()); state.save((1 + slot),end.get())" in c, "copy-matched", "a matched inner group writes both slots of its outer pair (start, end)")
-        need("else {state.save(slot,MAX); state.save((1 + slot),MAX)}" in c, "copy-unmatched", "an unmatched inner group must reset both outer slots to the unset marker (otherwise a value from an abandoned iteration leaks)")
+        # a group that did not take part in this delegate match keeps what it had (the span of an earlier loop
+        # iteration; abandoned iterations are undone by the save log): nothing is written for it
+        copy_ifs = [nd for nd in H.walk(arm["body"]) if nd.get("k") == "If" and H.canon(nd["cond"]).startswith("let Some(") and "inner_slots[" in H.canon(nd["cond"])]
+        need(len(copy_ifs) == 1 and copy_ifs[0].get("else") is None, "copy-unmatched",
+             "a group that does not participate in this match of the delegate must keep its span from an earlier loop iteration: the copy must not write (reset) anything for it")
+        saves_in_loop = [nd for nd in H.walk(arm["body"]) if nd.get("k") == "MethodCall" and nd["name"] == "save" and H.canon(nd["recv"]) == "state"]
+        inside = [x for ci in copy_ifs for x in H.walk(ci["then"]) if x.get("k") == "MethodCall" and x["name"] == "save"]
+        need(len(saves_in_loop) == len(inside) == 2, "copy-writes", "the Delegate arm writes capture slots only for participating groups (exactly the start and end of the pair)")
         need("ix = inner_slots[1].unwrap().get()" in c, "advance", "after a delegate with groups ix becomes the delegate's overall end (slot 1)")
         need("if %s.search_slots(input,inner_slots).is_some()" % IN in c and "else {break 'fail}" in c, "search-fail", "a failed delegate search fails the thread")
     # Captures::get / len / truncate
